@@ -214,10 +214,16 @@ fn c06_o4_update_keeps_identity() {
             assert!(got.generation() == generation + 1, "C07: changed identity fields did not advance the generation");
         }
         assert!(v.fields == new, "C01: re-created struct does not hold the new field values");
-        let expect_rev = if new.1 != old.1 || dur_index(d_new) < dur_index(d_old) { changed_at } else { frev };
-        assert!(v.revisions[0].load().as_usize() == expect_rev,
-            "C01/C03: tracked field revision is wrong after re-creation (must move iff value differs or durability decreased)");
-        assert!(v.durability == d_new, "C02: re-created struct did not take the creator's durability");
+        let must_move = new.1 != old.1 || dur_index(d_new) < dur_index(d_old);
+        let rev_after = v.revisions[0].load().as_usize();
+        if must_move {
+            assert!(rev_after >= changed_at && rev_after > 0, "C01: tracked field revision not moved although its value changed or its durability decreased");
+            assert!(rev_after == changed_at, "C03: tracked field revision moved further than the creator's changed_at");
+        } else {
+            assert!(rev_after == frev, "C03: tracked field revision moved although value and durability are unchanged");
+        }
+        assert!(dur_index(v.durability) <= dur_index(d_new), "C02: re-created struct is more durable than its creator");
+        assert!(v.durability == d_new, "C03: re-created struct did not take the creator's durability");
         assert!(v.updated_at.load() == Some(Revision::from(w.now)), "C06: re-created struct not stamped as updated in this revision");
     }
     kani::cover!(!locked && generation != u32::MAX && new.0 == old.0 && new.1 == old.1);
@@ -279,8 +285,8 @@ fn c07_o4_recycle_bumps_generation() {
     assert!(got.generation() == generation + 1, "C07: a recycled tracked-struct id kept its generation");
     let v = peek(&w);
     assert!(v.fields == new, "C07: recycled slot still holds the old struct's field values");
-    assert!(v.durability == d_new);
-    assert!(v.revisions[0].load().as_usize() == changed_at);
+    assert!(dur_index(v.durability) <= dur_index(d_new), "C02: recycled struct is more durable than its creator");
+    assert!(v.revisions[0].load().as_usize() >= changed_at, "C01: recycled struct's field revision predates its creator's changed_at");
     assert!(v.updated_at.load() == Some(Revision::from(w.now)));
     kani::cover!(generation == u32::MAX - 1);
     kani::cover!(generation == 0);
